@@ -18,6 +18,8 @@ LEVEL = "exploration"
 
 # parameter points outside the range in which the example documents a reference value: the returned number is still a bound
 MORE = {
+    "douglas_rachford_splitting_contraction": [dict(mu=mu, L=1.0, alpha=a, theta=t, n=n) for mu in (0.1, 0.5) for a in (0.3, 1.0) for t in (0.5, 1.5)
+                                               for n in (1, 2)],
     "douglas_rachford_splitting": [dict(L=L, alpha=a, theta=t, n=n) for L in (1.0, 2.0) for a, t in ((1.0, 1.0), (1.5, 1.0), (1.0, 0.7), (0.5, 1.5))
                                    for n in (1, 2, 3)],
 }
